@@ -87,3 +87,8 @@ native_unit("fri_native", "winter-fri", "fri", "native/fri_bounded.rs", ["C15", 
             ["FriProver::build_layers", "FriProver::build_proof", "FriVerifier::new", "FriVerifier::verify", "apply_drp", "fold_positions", "FriProof (de)serialization", "VerifierChannel::read_layer_queries"],
             "honest FRI proofs are accepted after serialization for every grid configuration (reused prover, degree == bound / 0 / low, 1..40 queries incl. repeated positions); polynomials above the claimed bound and proofs with a flipped bit are refused; nothing panics; read_layer_queries returns values iff verify_batch accepts the layer opening for exactly the given positions and commitment (honest, empty, duplicated, out-of-range, dropped, repeated positions; right and wrong commitment)",
             "NATIVE EXECUTION, not a proof: trace lengths 2^3..2^7 x blowup {2,4,8} x folding {2,4,8,16} x remainder degree {0,1,3,7,15,31} (well-formed schedules) over the 128- and 64-bit fields with Blake3_256, seeded polynomials; 5 configurations x all admissible bounds for the above-bound part")
+
+native_unit("boundary_native", "winter-air", "air", "native/boundary_bounded.rs", ["C16"],
+            ["BoundaryConstraints::new", "boundary::prepare_assertions", "boundary::group_constraints", "BoundaryConstraintGroup::divisor", "BoundaryConstraint::evaluate_at", "ConstraintDivisor::from_assertion", "ConstraintDivisor::evaluate_at"],
+            "assertion lists in which two assertions constrain the same cell are refused in every listing order; otherwise the constraint groups' divisors vanish on exactly the asserted steps of each of their constraints and each constraint compares the cell with the asserted value (value polynomial incl. offset)",
+            "NATIVE EXECUTION, not a proof: trace lengths 8, 16, 32 x 2 columns x every single / periodic / sequence assertion: all single assertions, all ordered pairs, 3000 seeded triples per length; 128-bit field")
